@@ -218,6 +218,17 @@ class Corpus:
         self.need_native = need_native
 
     def build(self):
+        """serialised across processes: the cargo target dirs (and the built binary's name) are shared"""
+        import fcntl
+        os.makedirs(CACHE, exist_ok=True)
+        with open(os.path.join(CACHE, "corpus-build.lock"), "w") as lk:
+            fcntl.flock(lk, fcntl.LOCK_EX)
+            try:
+                return self._build()
+            finally:
+                fcntl.flock(lk, fcntl.LOCK_UN)
+
+    def _build(self):
         os.makedirs(os.path.join(self.dir, "src"), exist_ok=True)
         lib = crate_text(self.progs)
         key = hashlib.sha256((lib + repo_macro_fingerprint() + VALS_RS + MAIN_RS).encode()).hexdigest()[:16]
@@ -273,13 +284,13 @@ class Corpus:
         with open(self.json) as f:
             return json.load(f)
 
-    def run_native(self, jobs):
+    def run_native(self, jobs, timeout=300):
         """jobs: list of (prog_name, [script lines]) -> list of outputs (str) or 'PANIC'"""
         inp = []
         for name, script in jobs:
             inp.append("=== " + name)
             inp += script
-        p = subprocess.run([self.bin], input="\n".join(inp) + "\n", stdout=subprocess.PIPE, stderr=subprocess.PIPE, text=True, timeout=600)
+        p = subprocess.run([self.bin], input="\n".join(inp) + "\n", stdout=subprocess.PIPE, stderr=subprocess.PIPE, text=True, timeout=timeout)
         outs = []
         cur = None
         for line in p.stdout.splitlines():
